@@ -214,6 +214,9 @@ class Output(Formatter):
 
         section = SectionOutput(self._stream, self._section_outputs, self._formatter)
         section.indent(self._indent)
+        # A section writes under the same conditions as the output it belongs to
+        section.set_verbosity(self._verbosity)
+        section.set_quiet(self._quiet)
 
         return section
 
